@@ -591,7 +591,7 @@ fn diff_snap(a: &Snap, b: &Snap) -> String {
 /// (first unlisted failure, listed-finding class hit)
 fn oracle(tr: &Trace, twin_probe: Option<&Option<String>>) -> (Option<String>, Option<String>) {
     let mut fail: Option<String> = None;
-    let mut known: Option<String> = None;
+    let known: Option<String> = None;
     let mut closed_seen = false;
     for (i, st) in tr.steps.iter().enumerate() {
         let mut set = |s: String| { if fail.is_none() { fail = Some(s); } };
@@ -599,7 +599,6 @@ fn oracle(tr: &Trace, twin_probe: Option<&Option<String>>) -> (Option<String>, O
         let q = st.before.sig;
         let spec = jsep(q, st.kind);
         let is_err = matches!(st.res, Res::Err(..));
-        let env = is_transport_failure(&st.res);
         // --- conformance
         match spec {
             None => {
@@ -610,8 +609,7 @@ fn oracle(tr: &Trace, twin_probe: Option<&Option<String>>) -> (Option<String>, O
             }
         }
         if is_err && st.after.sig != q {
-            if env { known.get_or_insert("transport_start_failure".into()); }
-            else { set(format!("call {} ({}) returned Err ({:?}) but the signaling state moved {:?} -> {:?}", i, st.name, st.res, q, st.after.sig)); }
+            { set(format!("call {} ({}) returned Err ({:?}) but the signaling state moved {:?} -> {:?}", i, st.name, st.res, q, st.after.sig)); }
         }
         if let Kind::SetLocal(SdpType::Pranswer) | Kind::SetRemote(SdpType::Pranswer) = st.kind {
             if st.after.sig != q { set(format!("call {} ({}): a provisional answer changed the signaling state {:?} -> {:?}", i, st.name, q, st.after.sig)); }
@@ -626,15 +624,13 @@ fn oracle(tr: &Trace, twin_probe: Option<&Option<String>>) -> (Option<String>, O
         }
         // --- atomicity
         if is_err && st.before != st.after {
-            if env { known.get_or_insert("transport_start_failure".into()); }
-            else { set(format!("call {} ({}) returned Err ({:?}) but changed: {}", i, st.name, st.res, diff_snap(&st.before, &st.after))); }
+            { set(format!("call {} ({}) returned Err ({:?}) but changed: {}", i, st.name, st.res, diff_snap(&st.before, &st.after))); }
         }
     }
     // --- the mid counter: a rejected final call must not change what the next transceiver gets
     if let (Some(last), Some(tp)) = (tr.steps.last(), twin_probe) {
         if matches!(last.res, Res::Err(..)) && *tp != tr.probe {
-            if is_transport_failure(&last.res) { known.get_or_insert("transport_start_failure".into()); }
-            else if fail.is_none() {
+            if fail.is_none() {
                 fail = Some(format!("last call ({}) returned Err ({:?}) but moved the mid counter: the next transceiver gets mid {:?}, without the rejected call {:?}", last.name, last.res, tr.probe, tp));
             }
         }
@@ -674,7 +670,13 @@ fn emit(out: &mut Out, it: &mut Interner, cfg: &Cfg, seq_names: Vec<String>, tr:
         oracle_fail: fail,
         known,
         nontrivial,
-        key: format!("{}|{}", cfg.key(), tr.steps.iter().map(|s| s.call_term.clone()).collect::<Vec<_>>().join(";")),
+        key: {
+            use std::hash::{Hash, Hasher};
+            let mut h = std::collections::hash_map::DefaultHasher::new();
+            cfg.key().hash(&mut h);
+            for st in &tr.steps { st.call_term.hash(&mut h); }
+            format!("{:016x}", h.finish())
+        },
         kind: kind.to_string(),
     });
 }
@@ -879,11 +881,114 @@ fn all_seqs(alpha: &[Letter], max_len: usize) -> Vec<Vec<Letter>> {
     out
 }
 
-#[tokio::main(flavor = "current_thread")]
-async fn main() {
+// ---------------------------------------------------------------- racing calls (two OS threads)
+#[derive(Clone, Copy, Debug, PartialEq)]
+enum RaceOp { SetLocalOffer, SetRemoteOffer, CreateOffer, Close }
+fn race_kind(o: RaceOp) -> Kind {
+    match o { RaceOp::SetLocalOffer => Kind::SetLocal(SdpType::Offer), RaceOp::SetRemoteOffer => Kind::SetRemote(SdpType::Offer), RaceOp::CreateOffer => Kind::CreateOffer, RaceOp::Close => Kind::Close }
+}
+/// Is (results, final state) the outcome of SOME sequential order of the two calls under the JSEP
+/// table?  A call the table allows may return Err only because the operation lock was busy.
+/// the JSEP self-loops this API documents as refused (InvalidState, state unchanged)
+fn refused_though_allowed(q: SignalingState, k: Kind) -> bool {
+    use SignalingState::*;
+    matches!((q, k), (HaveLocalOffer, Kind::SetLocal(SdpType::Offer)) | (HaveRemoteOffer, Kind::SetRemote(SdpType::Offer))
+        | (HaveLocalOffer, Kind::CreateOffer) | (HaveRemoteOffer, Kind::CreateOffer))
+}
+fn linearizable(ops: [RaceOp; 2], res: [&Res; 2], fin: SignalingState) -> bool {
+    for order in [[0usize, 1], [1, 0]] {
+        let mut q = SignalingState::Stable;
+        let mut ok = true;
+        for &i in &order {
+            let is_err = matches!(res[i], Res::Err(..));
+            match jsep(q, race_kind(ops[i])) {
+                Some(q2) => {
+                    if !is_err { q = q2; }
+                    else if !(matches!(res[i], Res::Err(_, m) if m.contains("in progress")) || refused_though_allowed(q, race_kind(ops[i]))) { ok = false; }
+                }
+                None => { if !is_err { ok = false; } }
+            }
+        }
+        if ok && q == fin { return true; }
+    }
+    false
+}
+fn run_races(out: &mut Out, thorough: bool) -> serde_json::Value {
+    use std::sync::atomic::{AtomicUsize, Ordering};
+    use std::sync::Arc;
+    let rt = tokio::runtime::Builder::new_multi_thread().worker_threads(2).enable_all().build().unwrap();
+    let cfg = Cfg { mode: TransportMode::Rtp, init: vec![(MediaKind::Audio, TransceiverDirection::SendRecv)], bad_env: false };
+    let (local_offer, remote_offer) = rt.block_on(async {
+        let a = cfg.make();
+        let lo = a.create_offer().await.expect("offer");
+        let b = cfg.make();
+        let ro = b.create_offer().await.expect("offer");
+        a.close();
+        b.close();
+        (lo, ro)
+    });
+    let mul = if thorough { 5 } else { 1 };
+    // (op of thread 1, op of thread 2, spin iterations thread 1 waits after the barrier, trials)
+    let plan: Vec<(RaceOp, RaceOp, u64, usize)> = vec![
+        (RaceOp::SetLocalOffer, RaceOp::SetRemoteOffer, 500, 1000 * mul), (RaceOp::SetLocalOffer, RaceOp::SetRemoteOffer, 200, 500 * mul),
+        (RaceOp::SetLocalOffer, RaceOp::SetRemoteOffer, 0, 200 * mul),
+        (RaceOp::SetLocalOffer, RaceOp::Close, 0, 400 * mul), (RaceOp::SetLocalOffer, RaceOp::Close, 100, 300 * mul),
+        (RaceOp::CreateOffer, RaceOp::SetRemoteOffer, 0, 200 * mul), (RaceOp::SetRemoteOffer, RaceOp::Close, 0, 200 * mul),
+    ];
+    let mut summary = serde_json::Map::new();
+    for (o1, o2, skew, trials) in plan {
+        let mut outcomes: BTreeMap<String, (u64, bool, String)> = BTreeMap::new();
+        for _ in 0..trials {
+            let pc = rt.block_on(async { cfg.make() });
+            let gate = Arc::new(AtomicUsize::new(0));
+            let run = |op: RaceOp, pc: PeerConnection, gate: Arc<AtomicUsize>, wait: u64, lo: SessionDescription, ro: SessionDescription, h: tokio::runtime::Handle| {
+                std::thread::spawn(move || {
+                    gate.fetch_add(1, Ordering::SeqCst);
+                    while gate.load(Ordering::SeqCst) < 2 { std::hint::spin_loop(); }
+                    for _ in 0..wait { std::hint::spin_loop(); }
+                    match op {
+                        RaceOp::SetLocalOffer => match catch(AssertUnwindSafe(|| pc.set_local_description(lo))) { Ok(Ok(())) => Res::Ok, Ok(Err(e)) => classify(&e), Err(p) => Res::Panic(p) },
+                        RaceOp::SetRemoteOffer => match h.block_on(guarded(pc.set_remote_description(ro))) { Ok(()) => Res::Ok, Err(e) => e },
+                        RaceOp::CreateOffer => match h.block_on(guarded(pc.create_offer())) { Ok(_) => Res::Ok, Err(e) => e },
+                        RaceOp::Close => { pc.close(); Res::Ok }
+                    }
+                })
+            };
+            let t1 = run(o1, pc.clone(), gate.clone(), skew, local_offer.clone(), remote_offer.clone(), rt.handle().clone());
+            let t2 = run(o2, pc.clone(), gate.clone(), 0, local_offer.clone(), remote_offer.clone(), rt.handle().clone());
+            let r1 = t1.join().unwrap_or(Res::Panic("thread".into()));
+            let r2 = t2.join().unwrap_or(Res::Panic("thread".into()));
+            let fin = pc.signaling_state();
+            let lin = linearizable([o1, o2], [&r1, &r2], fin);
+            let short = |r: &Res| match r { Res::Ok => "Ok".to_string(), Res::Err(c, m) => if m.contains("in progress") { "Err(busy)".to_string() } else { format!("Err({})", c) }, Res::Panic(_) => "PANIC".to_string() };
+            let key = format!("{}|{}|{:?}", short(&r1), short(&r2), fin);
+            let e = outcomes.entry(key).or_insert((0, lin, format!("{:?} / {:?}", r1, r2)));
+            e.0 += 1;
+            pc.close();
+        }
+        let name = format!("{:?} || {:?} (thread 1 delayed by {} spins)", o1, o2, skew);
+        for (k, (n, lin, detail)) in &outcomes {
+            let fail = if *lin { None } else {
+                Some(format!("racing {}: outcome [result 1 | result 2 | final state] = [{}] ({} of {} trials) is not the outcome of any sequential order of the two calls ({})", name, k, n, trials, detail))
+            };
+            out.push(Case { term: "-".into(), desc: json!({"race": name, "outcome": k, "count": n, "trials": trials}), oracle_fail: fail, known: None,
+                nontrivial: true, key: format!("race|{}|{}", name, k), kind: "race".into() });
+        }
+        summary.insert(name, json!(outcomes.iter().map(|(k, v)| (k.clone(), v.0)).collect::<BTreeMap<_, _>>()));
+    }
+    serde_json::Value::Object(summary)
+}
+
+fn main() {
     let args = parse_args();
     silence_panics();
     let mut out = Out::new(&args.out);
+    let races = run_races(&mut out, args.tier == "thorough");
+    let rt = tokio::runtime::Builder::new_current_thread().enable_all().build().unwrap();
+    rt.block_on(async_main(args, out, races));
+}
+
+async fn async_main(args: Args, mut out: Out, races: serde_json::Value) {
     let mut r = Rng::new(args.seed);
     let thorough = args.tier == "thorough";
     let mut it = Interner::default();
@@ -957,11 +1062,18 @@ async fn main() {
             _ => true }).collect();
         for s in all_seqs(&core, 4).into_iter().filter(|s| s.len() == 4) { jobs.push(("exhaustive-core4".into(), c_rtp.clone(), s)); }
     }
+    if thorough {
+        // length 5 over 8 letters on a fresh RTP connection
+        let small: Vec<Letter> = vec![Letter::CreateOffer, Letter::CreateAnswer, Letter::Close,
+            Letter::SetLocal(SdpType::Offer, LocalVar::Own), Letter::SetLocal(SdpType::Answer, LocalVar::Changed),
+            Letter::SetRemote(SdpType::Offer, RemoteVar::Changed), Letter::SetRemote(SdpType::Answer, RemoteVar::Base), Letter::SetRemote(SdpType::Pranswer, RemoteVar::Changed)];
+        for s in all_seqs(&small, 5).into_iter().filter(|s| s.len() == 5) { jobs.push(("exhaustive-small5".into(), c_rtp.clone(), s)); }
+    }
     for m in &modes {
         for init in &inits {
             let c = Cfg { mode: m.clone(), init: init.clone(), bad_env: false };
             if c == c_rtp { continue; }
-            let depth = if thorough && init.len() == 1 { 3 } else { 2 };
+            let depth = if thorough { 3 } else { 2 };
             for s in all_seqs(&alpha, depth) { jobs.push(("exhaustive".into(), c.clone(), s)); }
         }
     }
@@ -976,6 +1088,22 @@ async fn main() {
                 let mut q = pre.clone();
                 q.extend(s);
                 jobs.push(("negotiated".into(), c.clone(), q));
+            }
+        }
+    }
+    // ---- calls after close(): every later call must return Err and change nothing
+    for m in &modes {
+        let c = Cfg { mode: m.clone(), init: vec![audio], bad_env: false };
+        let depth = if *m == TransportMode::Rtp || thorough { 2 } else { 1 };
+        let mut pres: Vec<Vec<Letter>> = vec![vec![Letter::CreateOffer, Letter::Close], vec![Letter::SetRemote(SdpType::Offer, RemoteVar::Base), Letter::Close],
+            vec![Letter::CreateOffer, Letter::SetLocal(SdpType::Offer, LocalVar::Own), Letter::Close]];
+        let mut p = off_prefix.clone(); p.push(Letter::Close); pres.push(p);
+        let mut p = ans_prefix.clone(); p.push(Letter::Close); pres.push(p);
+        for pre in &pres {
+            for s in all_seqs(&alpha, depth) {
+                let mut q = pre.clone();
+                q.extend(s);
+                jobs.push(("after-close".into(), c.clone(), q));
             }
         }
     }
@@ -1031,5 +1159,5 @@ async fn main() {
         emit(&mut out, &mut it, &cfg, seq.iter().map(letter_name).collect(), &tr, &kind, fail, known);
     }
     out.finish(json!({"generator": {"alphabet": alpha.iter().map(letter_name).collect::<Vec<_>>(), "calls_by_letter": stats, "cases_by_config": per_cfg,
-        "sequence_lengths": lens, "calls_ok": ok_calls, "calls_err": err_calls, "cases_hitting_listed_finding": known_hits, "distinct_tokens": it.map.len(), "live": live}}));
+        "sequence_lengths": lens, "calls_ok": ok_calls, "calls_err": err_calls, "cases_hitting_listed_finding": known_hits, "distinct_tokens": it.map.len(), "live": live, "races": races}}));
 }
